@@ -49,7 +49,7 @@ func (s *Shard) deleteObjs(cnr cid.ID, addrs []oid.ID) error {
 	}
 	verifhook.Point("shard.deleteObjs.afterMeta", cnr, addrs)
 
-	if hasWriteCache {
+	if hasWriteCache && len(res) > len(addrs) { // res is nil when the container has no metabase bucket
 		for _, id := range res[len(addrs):] { // the rest are addrs, removed above
 			err := s.writeCache.Delete(oid.NewAddress(cnr, id))
 			if err != nil && !errors.Is(err, apistatus.ErrObjectNotFound) && !errors.Is(err, writecache.ErrReadOnly) {
